@@ -14,7 +14,8 @@
     "Spectra are preserved" follows from theorems 1-2 and 6 by the background fact that any
     two representations of the CAR algebra of n modes on 2^n dimensions are unitarily
     equivalent; that fact is not proved here. *)
-From Qib Require Import Fermi.FermiParity Fermi.FermiInst Base.Inst.
+From Qib Require Import Fermi.FermiParity Fermi.FermiLoop Fermi.FermiInst Base.Inst.
+From Coq Require Import QArith.
 From Run Require Import GenFermi.
 
 Lemma gen_par_tab_ok kind n i : (i < n)%nat -> gen_par_tab kind n i = par_tab kind n i.
@@ -38,6 +39,44 @@ Lemma gen_par_enc_lad (K : Scalar) (L : ScalarLaws K) (h : K) n o : (snd o < n)%
 Proof.
   intros Ho r c _ _. unfold enc_lad. rewrite (gen_par_tab_ok (fst o) n (snd o) Ho). reflexivity.
 Qed.
+
+(** 0. THE CODE'S LOOP is the model: [gen_par_loop] is the assembling loop of parity_encode_field_operator
+       translated statement by statement on every run (gen/fermi.py encoder_loop; see C11.v theorem 0 for what is
+       read); it is EQUAL to the hand-written [enc_raw] theorem 5 is about. *)
+Definition code_isz {K : Scalar} (isz : K -> bool) : K -> bool :=
+  if gen_par_skips_zero then isz else fun _ => false.
+Definition code_encode {K : Scalar} (h : K) (isz negl : K -> bool) (n : nat) (op : list (term K)) : list (wstr (K:=K)) :=
+  remove_zero_weight_strings negl
+    (enc_dim (gen_par_params h) n (gen_par_loop h isz n (gen_par_tab true n) (gen_par_tab false n) op)).
+
+Lemma code_raw_is_the_model (K : Scalar) (h : K) (isz : K -> bool) n (op : list (term K)) :
+  gen_par_loop h isz n (gen_par_tab true n) (gen_par_tab false n) op = enc_raw (gen_par_params h) (code_isz isz) n op.
+Proof.
+  unfold gen_par_loop, enc_raw.
+  apply fold_left_ext_in. intros acc t _. unfold enc_term.
+  apply fold_left_ext_in. intros acc' idx _. cbv [code_isz gen_par_skips_zero]. cbv zeta.
+  try (destruct (isz (tcf t idx)); [reflexivity|]).
+  unfold enc_coeff, expand. cbn [gen_par_params ep_tab ep_weight].
+  rewrite (fold_left_ext_in _ (fun acc o => expand_step (gen_par_tab (fst o) n (snd o)) acc) (combine (tpat t) idx))
+    by (intros a [[|] j] _; reflexivity).
+  reflexivity.
+Qed.
+
+Theorem C12_code_loop_is_the_model :
+  forall (K : Scalar) (h : K) (isz negl : K -> bool) n (op : list (term K)),
+    code_encode h isz negl n op = encode (gen_par_params h) (code_isz isz) negl n op.
+Proof. intros. unfold code_encode, encode. rewrite code_raw_is_the_model. reflexivity. Qed.
+Print Assumptions C12_code_loop_is_the_model.
+
+Lemma code_isz_ok {K : Scalar} (isz : K -> bool) :
+  (forall c, isz c = true -> c = s0) -> forall c, code_isz isz c = true -> c = s0.
+Proof. intros H c. unfold code_isz. destruct gen_par_skips_zero; [apply H|discriminate]. Qed.
+
+(** 0b. the pruning threshold is the documented 1e-14 (exact value of the binary64 literal) *)
+Theorem C12_pruning_threshold_as_documented :
+  gen_par_tol = Qmake 6338253001141147%Z 633825300114114700748351602688%positive.
+Proof. reflexivity. Qed.
+Print Assumptions C12_pruning_threshold_as_documented.
 
 (** 1. canonical anticommutation relations of the encoded ladder operators *)
 Theorem C12_CAR_annihil_create :
@@ -147,6 +186,23 @@ Proof.
   - intros k c. apply gen_par_weight_ok.
 Qed.
 Print Assumptions C12_encoding_up_to_pruned_strings.
+
+(** 6. MAIN, for the translated code (any zero test that only fires on zero, any pruning predicate) *)
+Theorem C12_code_encoder_is_sum_of_ordered_products :
+  forall (K : Scalar) (L : ScalarLaws K) (h : K) (isz negl : K -> bool) n (op : list (term K)),
+    (forall c, isz c = true -> c = s0) ->
+    let raw := enc_dim (gen_par_params h) n (gen_par_loop h isz n (gen_par_tab true n) (gen_par_tab false n) op) in
+    let target := op_matrix_gen (oprod_from n (enc_lad gen_par_tab h n) mid) n op in
+    (meq n (madd (opmatrix (code_encode h isz negl n op)) (opmatrix (dropped_strings negl raw))) target
+     /\ Forall (fun w => negl (snd w) = true) (dropped_strings negl raw))
+    /\ ((forall w, negl w = true -> w = s0) -> meq n (opmatrix (code_encode h isz negl n op)) target).
+Proof.
+  intros K L h isz negl n op Hz. cbv zeta.
+  rewrite C12_code_loop_is_the_model, code_raw_is_the_model. split.
+  - apply (C12_encoding_up_to_pruned_strings K L h (code_isz isz) negl n op (code_isz_ok isz Hz)).
+  - intros Hn. apply (C12_encoding_is_sum_of_ordered_products K L h (code_isz isz) negl n op (code_isz_ok isz Hz) Hn).
+Qed.
+Print Assumptions C12_code_encoder_is_sum_of_ordered_products.
 
 (** non-vacuity: Gaussian rationals with h = 1/2, 3 sites *)
 Example C12_instance :
